@@ -66,13 +66,50 @@ Section Spec.
 
     (* the nodes a path visits after its start *)
     Definition path_targets (p : list edge) : list nat := map (@edst E) p.
+
+    (* what the traversal machines guarantee about the edge tree they record (in recording order),
+       and what backtrack_edge_tree needs: accepted stored edges, pairwise distinct targets, and
+       every edge hangs off the root or off an earlier target *)
+    Definition TreeOK (root : nat) (tree : list edge) : Prop :=
+      Forall good_edge tree /\
+      NoDup (map (@edst E) tree) /\
+      (forall t1 e t2, tree = t1 ++ e :: t2 -> esrc e = root \/ In (esrc e) (map (@edst E) t1)).
+    (* "some depth-first traversal" (C10), nondeterministic in the order in which the unvisited
+       accepted successors are taken.  [DfsKids S u pre post S']: continuing the exploration of u
+       from the visited set S discovers the nodes [pre] (in discovery order) and finishes them in
+       the order [post], ending with visited set S'; it may stop only when every accepted edge
+       leaving u leads to a visited node.  A whole run from r is [DfsKids [r] r pre post S']:
+       its preorder is r :: pre, its postorder post ++ [r]. *)
+    Inductive DfsKids : list nat -> nat -> list nat -> list nat -> list nat -> Prop :=
+    | dk_done : forall S u,
+        (forall e, good_edge e -> esrc e = u -> In (edst e) S) -> DfsKids S u [] [] S
+    | dk_step : forall S u e pre1 post1 S1 pre2 post2 S2,
+        good_edge e -> esrc e = u -> ~ In (edst e) S ->
+        DfsKids (edst e :: S) (edst e) pre1 post1 S1 ->
+        DfsKids S1 u pre2 post2 S2 ->
+        DfsKids S u (edst e :: pre1 ++ pre2) (post1 ++ edst e :: post2) S2.
+
+    (* the root is entered by the last recorded edge at most (path mode: never; cycle mode: the closing edge) *)
+    Definition RootLast (root : nat) (tree : list edge) : Prop :=
+      forall t1 e t2, tree = t1 ++ e :: t2 -> edst e = root -> t2 = [].
   End Graph.
 
   (* ---------------- callbacks ---------------- *)
-  (* a callback that leaves the heap alone and answers by a fixed predicate:
-     Method::Empty / ForEach(recorder) (accept = fun _ => true) or Filter(pure f) *)
-  Definition PureCb (CB : Type) (cb : CB -> heap -> edge -> CB * heap * bool) (accept : edge -> bool) : Prop :=
-    forall c h e, snd (fst (cb c h e)) = h /\ snd (cb c h e) = accept e.
+  (* a callback that, run on heap h, leaves it alone and answers by a fixed predicate:
+     Method::Empty / ForEach(recorder) (accept = fun _ => true) or Filter(pure f).
+     (The heap of a traversal only changes through its callback, so it stays h.) *)
+  Definition PureCb (CB : Type) (h : heap) (cb : CB -> heap -> edge -> CB * heap * bool)
+             (accept : edge -> bool) : Prop :=
+    forall c e, snd (fst (cb c h e)) = h /\ snd (cb c h e) = accept e.
+
+  (* ---------------- queues of the worklist machine ---------------- *)
+  (* a queue never loses or invents elements; cont = its contents as a multiset *)
+  Record QSpec (Q : Type) (qpush : Q -> nat -> Q) (qpop : Q -> option (nat * Q))
+         (cont : Q -> list nat) : Prop := mkQSpec {
+    qs_push : forall q x, Permutation (cont (qpush q x)) (x :: cont q);
+    qs_pop_none : forall q, qpop q = None -> cont q = [];
+    qs_pop_some : forall q x q', qpop q = Some (x, q') -> Permutation (cont q) (x :: cont q')
+  }.
 
   (* total number of adjacency entries + nodes: a fuel that always suffices for pure callbacks *)
   Definition fuel_bound (h : heap) : nat :=
